@@ -35,6 +35,15 @@ def check(ctx) -> None:
     r141(ctx)
     r142(ctx)
     r143(ctx)
+    from . import c04
+    before = len(ctx.rules)
+    c04.r41(ctx)
+    r = ctx.rules[before]
+    r.id = 'R14.4'
+    r.title = 'an insertion never overwrites: the UID is chosen under the ' \
+              'destination lock (= R4.1)'
+    for i in r.instances:
+        i.rule = 'R14.4'
 
 
 def r141(ctx) -> None:
